@@ -516,7 +516,10 @@ pub fn enumerate(init: u8, len: usize, which: Tag, threads: usize) -> (u64, Opti
           let mut x = idx;
           for _ in 0..len { ops.push(alphabet[(x % a as u64) as usize].clone()); x /= a as u64; }
           let case = DagCase { init, ops };
-          let fails = run_case(&case, false, &mut facts);
+          let fails = match std::panic::catch_unwind(std::panic::AssertUnwindSafe(|| run_case(&case, false, &mut facts))) {
+            Ok(f) => f,
+            Err(p) => vec![(which, format!("the graph panicked: {}", crate::driver::panic_message(p.as_ref())))],
+          };
           count += 1;
           if let Some((_, msg)) = fails.into_iter().find(|(tag, _)| *tag == which) {
             return (count, Some((case, msg)));
